@@ -105,6 +105,17 @@ def _is_plain_value(v):
     return False
 
 
+def _is_plain_or_bytes(v):
+    """Assignable test values: plain data, with bytes allowed (bytes fields)."""
+    if isinstance(v, bytes):
+        return True
+    if isinstance(v, (list, tuple)) and not hasattr(v, "_fields"):
+        return all(_is_plain_or_bytes(x) for x in v)
+    if isinstance(v, dict):
+        return all(_is_plain_or_bytes(k) and _is_plain_or_bytes(x) for k, x in v.items())
+    return _is_plain_value(v)
+
+
 def _sanitize(world, cfg, node=None):
     """Reset values that are outside the quantifier (not representable at all)."""
     cc = world.cc
